@@ -41,8 +41,14 @@ func (e *establishLinkHandler) HandleValueAdded(inst directive.Instance, val dir
 	}
 	e.c.le.Debugf("got link with uuid %v", vl.GetLinkUUID())
 
-	// Attempt to open the stream.
+	// Attempt to open the stream, once per link.
+	tpl := pubsub.NewPeerLinkTuple(vl)
 	e.c.bcast.HoldLock(func(broadcast func(), getWaitCh func() <-chan struct{}) {
+		e.c.linkRefs[tpl]++
+		if e.c.linkRefs[tpl] != 1 {
+			// another directive already yielded this link
+			return
+		}
 		e.c.incLinks = append(e.c.incLinks, vl)
 		broadcast()
 	})
@@ -57,6 +63,12 @@ func (e *establishLinkHandler) HandleValueRemoved(inst directive.Instance, val d
 	e.c.le.Debugf("lost link with uuid %v", vl.GetLinkUUID())
 	tpl := pubsub.NewPeerLinkTuple(vl)
 	e.c.bcast.HoldLock(func(broadcast func(), getWaitCh func() <-chan struct{}) {
+		if n := e.c.linkRefs[tpl]; n > 1 {
+			// the link is still carried by another directive
+			e.c.linkRefs[tpl] = n - 1
+			return
+		}
+		delete(e.c.linkRefs, tpl)
 		for i, l := range e.c.incLinks {
 			if l == vl {
 				e.c.incLinks[i] = e.c.incLinks[len(e.c.incLinks)-1]
